@@ -95,8 +95,44 @@ def cleanH : Handler := fun j => do
 def joinH : Handler := fun j => do
   pure (Json.mkObj [("r", jBytes (Paths.join (← getBytesList j "elems")))])
 
+/-- {"op":"analysis.pathfn","fn":"within|overlap|escape|withinws|cleanout", args..} → {"r":..} -/
+def pathFnH : Handler := fun j => do
+  let fn ← getStr j "fn"
+  let cfg ← getCfg j
+  match fn with
+  | "within" => pure (Json.mkObj [("r", Json.bool (Paths.pathWithin cfg.dotRoot (← getBytes j "p") (← getBytes j "d")))])
+  | "overlap" => pure (Json.mkObj [("r", Json.bool (Paths.pathsOverlap cfg.dotRoot (← getBytes j "p") (← getBytes j "d")))])
+  | "escape" => pure (Json.mkObj [("r", Json.bool (Paths.triesToEscape (← getBytes j "p")))])
+  | "withinws" => pure (Json.mkObj [("r", Json.bool (Paths.isWithinWorkspace (← getBytes j "ws") (← getBytes j "pkg") (← getBytes j "rel")))])
+  | "cleanout" => pure (Json.mkObj [("r", jBytes (Paths.cleanOutputPath (← getBytes j "pkg") (← getBytes j "out")))])
+  | _ => throw ("unknown fn " ++ fn)
+
+/-- nodes of a bare dependency graph: {"label":{..},"deps":[..]} (all targets) -/
+def getBareNodes (j : Json) : Except String (List Node) := do
+  (← getArr j "nodes").toList.mapM fun n => do
+    let l ← getLabel (← n.getObjVal? "label")
+    let deps ← getLabels n "deps"
+    pure (Node.target ⟨l, deps, [], [], false, true⟩)
+
+/-- {"op":"analysis.ancestors","nodes":[..],"queries":[label..]} → {"sets":[[label..]..]} -/
+def ancestorsH : Handler := fun j => do
+  let ns ← getBareNodes j
+  let qs ← getLabels j "queries"
+  let sets := qs.map fun q => Json.arr ((ancestors ns q).map jLabel).toArray
+  pure (Json.mkObj [("sets", Json.arr sets.toArray)])
+
+/-- {"op":"analysis.ordered","nodes":[..],"pairs":[[a,b]..]} → {"r":[bool..]} -/
+def orderedH : Handler := fun j => do
+  let ns ← getBareNodes j
+  let cfg ← getCfg j
+  let ps ← (← getArr j "pairs").toList.mapM fun e => do
+    let a ← e.getArr?
+    if h : a.size = 2 then pure ((← getLabel a[0]), (← getLabel a[1])) else throw "pair"
+  pure (Json.mkObj [("r", Json.arr (ps.map fun (a, b) => Json.bool (ordered cfg ns a b)).toArray)])
+
 def handlers : List (String × Handler) :=
   [("analysis.analyze", analyzeH), ("analysis.findcycle", findCycleH),
+   ("analysis.pathfn", pathFnH), ("analysis.ancestors", ancestorsH), ("analysis.ordered", orderedH),
    ("paths.clean", cleanH), ("paths.join", joinH)]
 
 end Grog.Drv.Analysis
